@@ -28,7 +28,7 @@ void SkipValueImpl__vsv_c8_ru64(vsv_c8 inputData, unsigned long* pos) {
 #define WIN 32
 struct doc { unsigned char wb[WIN]; unsigned char* win; size_t wlen; const unsigned char* data; size_t size; size_t pos; struct SerializationOptions opt; struct CMsgPackStringReader r; };
 static void doc_init(struct doc* d) {
-  d->size = nondet_size_t(); __CPROVER_assume(d->size <= ((size_t)1 << 62));   /* documents up to 2^62 bytes */
+  d->size = nondet_size_t(); __CPROVER_assume(d->size <= ((size_t)1 << 54));   /* documents up to 2^54 bytes (CBMC pointer offsets have 56 bits) */
   d->pos = nondet_size_t(); __CPROVER_assume(d->pos <= d->size);
 #ifdef VERIF_SMALL_CE
   __CPROVER_assume(d->size - d->pos <= 4096);   /* only while extracting a counterexample that the native replay can materialise */
